@@ -35,12 +35,68 @@ func runCLI(env *kernel.Env, scr string, progs []progRef) (int, []kernel.Found) 
 	if env.Tier == "thorough" {
 		reps = 6
 	}
-	if len(progs) > 4 {
-		progs = progs[:4]
+	// multi-file programs first: the command's own ordering of files matters there
+	sort.SliceStable(progs, func(i, j int) bool { return len(progFiles(env, progs[i])) > len(progFiles(env, progs[j])) })
+	if len(progs) > 8 {
+		progs = progs[:8]
 	}
+	reps = reps + 1
 	var found []kernel.Found
 	runs := 0
+	type cliRes struct {
+		runs  int
+		found []kernel.Found
+	}
+	resCh := make(chan cliRes, len(progs))
+	sem := make(chan struct{}, 8)
 	for _, ref := range progs {
+		go func(ref progRef) {
+			sem <- struct{}{}
+			defer func() { <-sem }()
+			r, f := runCLIOne(env, scr, bin, pathDir, ref, reps)
+			resCh <- cliRes{r, f}
+		}(ref)
+	}
+	for range progs {
+		r := <-resCh
+		runs += r.runs
+		found = append(found, r.found...)
+	}
+	sort.Slice(found, func(i, j int) bool { return found[i].File < found[j].File })
+	return runs, found
+}
+
+var goEnvCache = map[string]string{}
+
+func goEnv(k string) string {
+	if v, ok := goEnvCache[k]; ok {
+		return v
+	}
+	b, _ := exec.Command("go", "env", k).Output()
+	v := strings.TrimSpace(string(b))
+	goEnvCache[k] = v
+	return v
+}
+
+func treeDigest(dir string) string {
+	var lines []string
+	filepath.Walk(dir, func(path string, info os.FileInfo, err error) error {
+		if err != nil || info.IsDir() {
+			return nil
+		}
+		b, _ := os.ReadFile(path)
+		rel, _ := filepath.Rel(dir, path)
+		lines = append(lines, fmt.Sprintf("%s %d %016x", rel, len(b), kernel.Hash64(string(b))))
+		return nil
+	})
+	sort.Strings(lines)
+	return strings.Join(lines, "\n")
+}
+
+func runCLIOne(env *kernel.Env, scr, bin, pathDir string, ref progRef, reps int) (int, []kernel.Found) {
+	var found []kernel.Found
+	runs := 0
+	{
 		dir := progDir(env, ref)
 		if ref.Kind == "repo" {
 			dir = filepath.Join(scr, "repo-pristine")
@@ -104,31 +160,4 @@ func runCLI(env *kernel.Env, scr string, progs []progRef) (int, []kernel.Found) 
 		}
 	}
 	return runs, found
-}
-
-var goEnvCache = map[string]string{}
-
-func goEnv(k string) string {
-	if v, ok := goEnvCache[k]; ok {
-		return v
-	}
-	b, _ := exec.Command("go", "env", k).Output()
-	v := strings.TrimSpace(string(b))
-	goEnvCache[k] = v
-	return v
-}
-
-func treeDigest(dir string) string {
-	var lines []string
-	filepath.Walk(dir, func(path string, info os.FileInfo, err error) error {
-		if err != nil || info.IsDir() {
-			return nil
-		}
-		b, _ := os.ReadFile(path)
-		rel, _ := filepath.Rel(dir, path)
-		lines = append(lines, fmt.Sprintf("%s %d %016x", rel, len(b), kernel.Hash64(string(b))))
-		return nil
-	})
-	sort.Strings(lines)
-	return strings.Join(lines, "\n")
 }
